@@ -107,9 +107,14 @@ impl WorkerState {
         match self.running_tasks.find_mut(&task_id) {
             None => {
                 /* This may happen that task was computed or when work steal
-                  was successful
+                  was successful.
+                  The task may also wait in the local backlog of prefilled tasks;
+                  it must not be started later.
                 */
                 log::debug!("Task not found");
+                self.prefilled_tasks
+                    .values_mut()
+                    .for_each(|tasks| tasks.retain(|t| t.id != task_id));
             }
             Some(task) => task.cancel(),
         }
